@@ -180,7 +180,9 @@ func Worker(prop, engine, tier string, verifSeed uint64, from, step, total int, 
 			return res
 		}
 		res.Violations = append(res.Violations, p)
-		break
+		if os.Getenv("VERIF_SURVEY") == "" {
+			break
+		}
 	}
 	for s := range sigs {
 		res.Sigs = append(res.Sigs, s)
